@@ -84,8 +84,11 @@ class PolicyChooser(Chooser):
     rr (round robin), pct (strict priorities + d change points), spread (one task per worker first),
     pile (all tasks on one worker)"""
 
-    def __init__(self, rng, policy="random", pct_d=2, horizon=400):
+    def __init__(self, rng, policy="random", pct_d=2, horizon=400, starve=None):
         super().__init__()
+        if starve:
+            self._sv = tuple(starve)
+            self._sv_fixed = True
         self.rng = rng
         self.policy = policy
         self.perms = []
@@ -138,6 +141,18 @@ class PolicyChooser(Chooser):
                 if m[1] == s:
                     return i
             return 0
+        if p == "starve":
+            # one victim actor is starved for a window of steps (generalises a single PCT change point)
+            if not hasattr(self, "_sv"):
+                self._sv = (self.rng.randrange(4), self.rng.randrange(0, 70), self.rng.choice([4, 8, 16, 32, 64, 128]))
+            v, s0, ln = self._sv
+            slots = sorted(set(m[1] for m in moves))
+            if hasattr(self, "_sv_fixed"):
+                victim = v if s0 <= self.steps < s0 + ln else None
+            else:
+                victim = slots[v % len(slots)] if s0 <= self.steps < s0 + ln else None
+            cand = [i for i, m in enumerate(moves) if m[1] != victim] or list(range(len(moves)))
+            return cand[self.rng.randrange(len(cand))]
         if p == "pct":
             while self.change and self.steps >= self.change[0]:
                 self.change.pop(0)
@@ -212,7 +227,7 @@ class Hub:
         self.map_state = None
         self.maps = []            # per map: {"fn":..., "placement": {slot: [tasks]}}
         self.mtimes = mtimes if mtimes is not None else {}
-        self.clock = 1_000_000_000
+        self.clock = int(max([1_000_000_000] + [int(v) for v in self.mtimes.values()]))
         self.probes = {}
         self.extra_pids = []
 
@@ -416,7 +431,8 @@ class Hub:
 
     def _observe(self, a, m, seq):
         k, p = m["k"], m["p"]
-        if k.startswith("open:") and k != "open:r" or k in ("write", "rename", "sqlite-commit", "sqlite-connect"):
+        if k.startswith("open:") and k != "open:r" or k in ("write", "rename") or \
+                (k == "sqlite-commit" and m.get("dirty", True)) or (k == "sqlite-connect" and m.get("new")):
             self.clock += 1
             self.mtimes[p] = float(self.clock)
         elif k == "remove":
